@@ -18,19 +18,24 @@ pub const RES_UNKNOWN: i64 = -2;
 pub const RES_PANIC: i64 = -3;
 
 /// payload class of an id: (size in bytes, compressible)
-pub fn class_of(case: &Value, p: u32) -> (usize, bool) {
+pub fn class_of(case: &Value, p: u32) -> (usize, u8) {
 	if let Some(c) = case.get("classes").and_then(|c| c.get(p.to_string())) {
-		return (c[0].as_u64().unwrap() as usize, c[1].as_u64().unwrap() == 1);
+		return (c[0].as_u64().unwrap() as usize, c[1].as_u64().unwrap() as u8);
+	}
+	match p % 16 {
+		8 => return (300, 2),  // the payload is itself a gzip stream
+		0 => return (300, 3),  // ... a brotli stream
+		_ => {}
 	}
 	match p % 8 {
-		1 => (999, true),
-		2 => (1000, false),
-		3 => (12, true),
-		4 => (1001, true),
-		5 => (40 * 1024, false),
-		6 => (5, false),
-		7 => (70 * 1024, true),
-		_ => (300, false),
+		1 => (999, 1),
+		2 => (1000, 0),
+		3 => (12, 1),
+		4 => (1001, 1),
+		5 => (40 * 1024, 0),
+		6 => (5, 0),
+		7 => (70 * 1024, 1),
+		_ => (300, 0),
 	}
 }
 
@@ -57,7 +62,7 @@ pub fn source_of(case: &Value) -> Source {
 	for t in &tiles {
 		blobs.entry(t.3).or_insert_with(|| {
 			let (size, compr) = class_of(case, t.3);
-			let b = indep::encode(&tc, &payload(t.3, size, compr));
+			let b = indep::encode(&tc, &payload_c(t.3, size, compr));
 			by_bytes.insert(b.clone(), t.3);
 			b
 		});
